@@ -88,7 +88,8 @@ def c17_run(prop, cfg, seed, tier, workdir):
     rng = random.Random(seed)
     n = 150 if tier == "quick" else 5000
     pairs = [c17_pair(rng, f"c17p{i}") for i in range(n)]
-    scenarios = [s for p in pairs for s in p]
+    corpus = runner.load_corpus(prop)
+    scenarios = corpus + [s for p in pairs for s in p]
     impl, model = runner.run_pair(scenarios, workdir, "s")
     # determinism: a second, separate run of the real crate on the same batch
     impl2, _ = runner.run_pair(scenarios, workdir, "s2", impl_only=True)
@@ -114,7 +115,7 @@ def c17_run(prop, cfg, seed, tier, workdir):
             violations.append((f"interference-{a}", "# the kept contexts behave differently with / without input-disjoint contexts\n"
                                f"# first difference (index, with D, without D): {d!r}\n" + "\n".join(A) + "\n" + "\n".join(B) + "\n"))
     return dict(scenarios=scenarios, impl=impl, model=model, mismatches=mismatches, outside=outside, evaluations=len(scenarios) * 2,
-                distinct=len(scenarios), nontrivial=nontriv, stats=stats, n_corpus=0, violations=violations,
+                distinct=len(scenarios), nontrivial=nontriv, stats=stats, n_corpus=len(corpus), violations=violations,
                 extra_coverage={"pairs_compared": len(pairs), "determinism_reruns": len(scenarios)})
 
 
